@@ -281,6 +281,33 @@ ModelVal == [type  |-> [hh \in LiveH |-> TypeOfH(hh)],
              links |-> { [cls |-> vAssocs[k].cls, l |-> Range(vAssocs[k].l), r |-> Range(vAssocs[k].r)] : k \in DOMAIN vAssocs }]
 AllFields == {Lng.assocs[c].lf : c \in DOMAIN Lng.assocs} \cup {Lng.assocs[c].rf : c \in DOMAIN Lng.assocs}
 
+(* ------ abstraction functions of the external formats (C07, C18, C19) ------ *)
+IdOfH(hh) == AssetOf(hh).id
+\* pairwise links: what the legacy formats (0.0.39 layout, .sCAD) and Neo4j can express
+PairLinks == UNION { { [cls |-> vAssocs[k].cls, l |-> IdOfH(a), r |-> IdOfH(b)] : a \in Range(vAssocs[k].l), b \in Range(vAssocs[k].r) }
+                     : k \in DOMAIN vAssocs }
+EntrySteps == UNION { UNION { { [atk |-> vAtk[k].id, a |-> IdOfH(vAtk[k].ep[i].a), s |-> s] : s \in Range(vAtk[k].ep[i].steps) }
+                              : i \in DOMAIN vAtk[k].ep } : k \in DOMAIN vAtk }
+AbsLegacy == [ assets |-> { [id |-> vAssets[k].id, name |-> vAssets[k].name, type |-> vAssets[k].type, def |-> vAssets[k].def] : k \in DOMAIN vAssets },
+               links  |-> PairLinks,
+               atk    |-> { [id |-> vAtk[k].id, name |-> vAtk[k].name] : k \in DOMAIN vAtk },
+               entry  |-> EntrySteps ]
+
+\* C19: what ingesting the model sends to Neo4j: one node per asset, and for each linked pair one relationship per
+\* direction labelled with the field that contains the SOURCE asset
+NeoNodes == { [id |-> vAssets[k].id, name |-> vAssets[k].name, type |-> vAssets[k].type] : k \in DOMAIN vAssets }
+NeoRels == UNION { UNION { { [src |-> IdOfH(a), label |-> Decl(vAssocs[k].cls).lf, dst |-> IdOfH(b)],
+                             [src |-> IdOfH(b), label |-> Decl(vAssocs[k].cls).rf, dst |-> IdOfH(a)] }
+                           : <<a, b>> \in Range(vAssocs[k].l) \X Range(vAssocs[k].r) } : k \in DOMAIN vAssocs }
+\* reading back: every pair of opposite relationships between two nodes whose labels are the two fields of an association
+TypeOfId(i) == vAssets[CHOOSE k \in DOMAIN vAssets : vAssets[k].id = i].type
+NeoReadBack == { [cls |-> c, l |-> r1.src, r |-> r1.dst] : <<r1, r2, c>> \in { t \in NeoRels \X NeoRels \X DOMAIN Lng.assocs :
+                     /\ t[1].src = t[2].dst /\ t[1].dst = t[2].src /\ t[1] # t[2]
+                     /\ t[1].label = Decl(t[3]).lf /\ t[2].label = Decl(t[3]).rf
+                     /\ IsSub(Lng, TypeOfId(t[1].src), Decl(t[3]).lt) /\ IsSub(Lng, TypeOfId(t[1].dst), Decl(t[3]).rt) } }
+\* theorem (checked by TLC on every explored state): import inverts export on the links
+NeoRoundTrip == NeoReadBack = PairLinks
+
 (* --------------------- observation (projection target) ------------------ *)
 Obs == [ assets |-> { [h |-> vAssets[k].h, id |-> vAssets[k].id, name |-> vAssets[k].name, type |-> vAssets[k].type,
                        def |-> vAssets[k].def, extras |-> vAssets[k].extras] : k \in DOMAIN vAssets },
